@@ -22,7 +22,6 @@ def demoEnv (osend : Coins) : Env where
 def demoChain : Chain where
   env := demoEnv
   persisted := [⟨2, some (.pkg demoRA), demoRA, .persisted⟩]
-  hasAccount := fun _ => true
 
 def demoWorld : World where
   led := { bal := fun a d => if d = ugnot then (match a with | .pkg _ => 1000 | .user _ => 5000 | .dep _ => 100000 | .col => 0) else 0,
@@ -33,6 +32,7 @@ def demoWorld : World where
   price := 100
   defaultDeposit := 1000000000
   restricted := false
+  hasAccount := fun _ => true
 
 def u (n : Int) : Coins := [⟨ugnot, n⟩]
 
